@@ -84,16 +84,19 @@ func runScenario(i int, sc Scenario, deadline time.Time) scenResult {
 	return out
 }
 
-// RunShard runs the scenarios of one shard and prints one JSON line per scenario.
+// RunShard is a worker: it reads scenario indices from stdin, one per line, runs each and
+// prints one JSON line per scenario (dynamic work distribution by the parent).
 func RunShard(spec *Spec, tier string, shard, nshards int, deadline time.Time) {
 	scs := spec.Scenarios(tier)
 	w := bufio.NewWriter(os.Stdout)
 	defer w.Flush()
-	for i, sc := range scs {
-		if i%nshards != shard {
+	in := bufio.NewScanner(os.Stdin)
+	for in.Scan() {
+		var i int
+		if _, err := fmt.Sscan(in.Text(), &i); err != nil || i < 0 || i >= len(scs) {
 			continue
 		}
-		r := runScenario(i, sc, deadline)
+		r := runScenario(i, scs[i], deadline)
 		b, _ := json.Marshal(r)
 		w.Write(b)
 		w.WriteString("\n")
@@ -126,6 +129,16 @@ func Main(spec *Spec, tier string) int {
 		var mu sync.Mutex
 		var wg sync.WaitGroup
 		var shardErr string
+		next := 0
+		take := func() int {
+			mu.Lock()
+			defer mu.Unlock()
+			if next >= len(scs) {
+				return -1
+			}
+			next++
+			return next - 1
+		}
 		for sh := 0; sh < nsh; sh++ {
 			wg.Add(1)
 			go func(sh int) {
@@ -134,6 +147,7 @@ func Main(spec *Spec, tier string) int {
 				cmd.Env = append(os.Environ(), "GOMAXPROCS=2")
 				cmd.Stderr = os.Stderr
 				po, _ := cmd.StdoutPipe()
+				pi, _ := cmd.StdinPipe()
 				if err := cmd.Start(); err != nil {
 					mu.Lock()
 					shardErr = err.Error()
@@ -142,7 +156,18 @@ func Main(spec *Spec, tier string) int {
 				}
 				sc := bufio.NewScanner(po)
 				sc.Buffer(make([]byte, 1<<20), 1<<26)
-				for sc.Scan() {
+				for {
+					i := take()
+					if i < 0 {
+						break
+					}
+					fmt.Fprintln(pi, i)
+					if !sc.Scan() {
+						mu.Lock()
+						shardErr = fmt.Sprintf("shard %d died while running scenario %q", sh, scs[i].Name)
+						mu.Unlock()
+						break
+					}
 					var r scenResult
 					if json.Unmarshal(sc.Bytes(), &r) == nil && r.Name != "" {
 						mu.Lock()
@@ -150,11 +175,8 @@ func Main(spec *Spec, tier string) int {
 						mu.Unlock()
 					}
 				}
-				if err := cmd.Wait(); err != nil {
-					mu.Lock()
-					shardErr = fmt.Sprintf("shard %d: %v", sh, err)
-					mu.Unlock()
-				}
+				pi.Close()
+				cmd.Wait()
 			}(sh)
 		}
 		wg.Wait()
